@@ -83,7 +83,14 @@ Definition content_for (m : string) : nat :=
   if String.eqb m "delete" then 12 else if String.eqb m "setEACL" then 13 else
   if String.eqb m "putReport" then 14 else 1000.
 
-Definition handler_ok (c : call) : bool := Nat.eqb (k_content c) (content_for (k_method c)) && k_ok c.
+(* the old-style methods `put` and `setEACL` take the same arguments as `create` / `putEACL` and
+   are served by the same handlers *)
+Definition accepts (m : string) (ct : nat) : bool :=
+  Nat.eqb ct (content_for m)
+  || (String.eqb m "put" && Nat.eqb ct ct_create)
+  || (String.eqb m "setEACL" && Nat.eqb ct ct_put_eacl).
+
+Definition handler_ok (c : call) : bool := accepts (k_method c) (k_content c) && k_ok c.
 
 (* RestoreCreateContainerV2Request + processCreateContainerRequest on the optional second call *)
 (* (repaired: before the fix the second call's contract and method were not looked at) *)
@@ -117,7 +124,7 @@ Definition structure_ok (e : env) (q : nreq) : Prop :=
 Definition expected (c : call) : Prop := registered_call c = true.
 (* validated by the matching handler: the content is what that method's handler checks, and it passed *)
 Definition validated (c : call) : Prop :=
-  k_ok c = true /\ (k_content c = content_for (k_method c) \/ (k_method c = put_eacl_method /\ k_content c = ct_eacl_new)).
+  k_ok c = true /\ (accepts (k_method c) (k_content c) = true \/ (k_method c = put_eacl_method /\ k_content c = ct_eacl_new)).
 
 Definition structure_ok_b (e : env) (q : nreq) : bool :=
   negb (q_seen q) && negb (q_fb_local q) && (Nat.eqb (q_nwit q) 3 || Nat.eqb (q_nwit q) 4)
@@ -128,7 +135,7 @@ Definition structure_ok_b (e : env) (q : nreq) : bool :=
 
 Definition call_ok_b (c : call) : bool :=
   registered_call c && k_ok c
-  && (Nat.eqb (k_content c) (content_for (k_method c)) || (String.eqb (k_method c) put_eacl_method && Nat.eqb (k_content c) ct_eacl_new)).
+  && (accepts (k_method c) (k_content c) || (String.eqb (k_method c) put_eacl_method && Nat.eqb (k_content c) ct_eacl_new)).
 
 Definition may_sign (e : env) (q : nreq) : bool :=
   structure_ok_b e q && e_alphabet e && negb (match q_calls q with [] => true | _ => false end) && forallb call_ok_b (q_calls q).
